@@ -1583,3 +1583,40 @@ Proof.
       apply (Hlone (fst kv, Kept (Leaf id)) b r id Hget).
       unfold lone_candidate. cbn [fst snd]. unfold tag_of in Ht. rewrite Hleaf in Ht. rewrite Ht, Hik, Hex. reflexivity.
 Qed.
+
+(** * Parse-time selection = run-time selection *)
+
+(** C05_static_select: for every oracle, locale, rule type and operand, the form `$t(key, {"count": n})` selects while the
+    files are loaded is the form the generated `match` selects at run time for the same locale and count *)
+Lemma static_select_correct :
+  forall (locale operand : Type) (cat : locale -> rule -> operand -> form) (top dflt : locale) (r : rule) (n : operand)
+         (others : list member) (other : N),
+    (forall m, In m others -> is_other m = false) ->
+    resolve_count_ref locale operand cat top dflt r other (build_forms others []) (CountLit n)
+    = SForm (select_match other (build_forms others []) (cat top r n)).
+Proof.
+  intros locale operand cat top dflt r n others other Hno. unfold resolve_count_ref, populate_with_count_arg.
+  f_equal. apply select_cat_match. apply build_forms_no_other. exact Hno.
+Qed.
+
+Lemma static_select_level :
+  forall (locale operand : Type) (cat : locale -> rule -> operand -> form) is_key cats path ks out ws b,
+    NoDup (map fst ks) -> merge_level is_key cats path ks = ROk out ws -> mergeable ks b = true ->
+    exists r other forms,
+      mget b out = Some (PluralV r other forms) /\
+      forall (top dflt : locale) (n : operand),
+        resolve_count_ref locale operand cat top dflt r other forms (CountLit n)
+        = SForm (select_match other forms (cat top r n)).
+Proof.
+  intros locale operand cat is_key cats path ks out ws b Hnd Hr Hm.
+  destruct (select_level locale operand cat is_key cats path ks out ws b Hnd Hr Hm) as [r [other [forms [Hget [_ Hsel]]]]].
+  exists r, other, forms. split; [exact Hget|]. intros top dflt n. unfold resolve_count_ref, populate_with_count_arg.
+  f_equal. apply (Hsel top n).
+Qed.
+
+(** a count that is not a literal number never selects a form: renaming keeps the plural, anything else is the
+    InvalidCountArg error naming the referencing locale *)
+Lemma static_select_other_args : forall (locale operand : Type) cat (top dflt : locale) r other forms k,
+  resolve_count_ref locale operand cat top dflt r other forms (CountVar k) = SRename k /\
+  resolve_count_ref locale operand cat top dflt r other forms CountInvalid = SInvalid top.
+Proof. intros. split; reflexivity. Qed.
